@@ -1004,6 +1004,11 @@ Proof.
   rewrite insert_by_perm. constructor. exact IH.
 Qed.
 
+Lemma sort_by_In {A} (key : A -> cell) l x : In x (sort_by key l) <-> In x l.
+Proof.
+  split; apply Permutation_in; [|apply Permutation_sym]; apply sort_by_perm.
+Qed.
+
 Lemma sort_by_length {A} (key : A -> cell) l : length (sort_by key l) = length l.
 Proof. apply Permutation_length. apply sort_by_perm. Qed.
 
@@ -1396,4 +1401,599 @@ Proof.
     apply (sort_tab_keeps_order c (mkT (cols (tab (run d0 ops))) _) v).
   - destruct M as [-> _]. simpl. split; [reflexivity|]. split; [apply Permutation_refl|].
     split; [reflexivity|discriminate].
+Qed.
+
+(* ================================================================== flatten *)
+Lemma In_combine_seq {A} (f : nat -> Z) (l : list A) s i r :
+  In (i, r) (combine (map f (seq s (length l))) l) <-> exists n, nth_error l n = Some r /\ i = f (s + n)%nat.
+Proof.
+  revert s. induction l as [|x l IH]; intros s; simpl.
+  - split; [tauto|]. intros [[|n] [H _]]; discriminate.
+  - rewrite IH. split.
+    + intros [H|[n [H1 H2]]].
+      * injection H as <- <-. exists O. rewrite Nat.add_0_r. auto.
+      * exists (S n). rewrite Nat.add_succ_r. auto.
+    + intros [[|n] [H1 H2]].
+      * injection H1 as <-. rewrite Nat.add_0_r in H2. subst. auto.
+      * right. exists n. rewrite Nat.add_succ_r in H2. auto.
+Qed.
+
+Lemma In_enumerate1 {A} (l : list A) i r :
+  In (i, r) (enumerate1 l) <-> exists n, nth_error l n = Some r /\ i = Z.of_nat n + 1.
+Proof.
+  unfold enumerate1, iota. rewrite map_map.
+  apply (In_combine_seq (fun n => Z.of_nat n + 1) l 0 i r).
+Qed.
+
+Lemma all_same_spec l : all_same l = true -> forall x, In x l -> x = hd dzero l.
+Proof.
+  destruct l as [|y r]; simpl; [tauto|]. intros H x [<-|Hx]; [reflexivity|].
+  rewrite forallb_forall in H. specialize (H x Hx). apply ceqb_eq in H. congruence.
+Qed.
+
+Definition colv (cs : list Z) (c : Z) (rs : list lrow) : list cell := map (fun r : lrow => getd cs c (snd r)) rs.
+
+(* T13f (flatten): one line per individual present in the table; an identical column carries the
+   common value of the individual's rows; the other columns appear once per observation,
+   numbered 1, 2, ... in the order of the rows of the table *)
+Lemma flatten_spec g idn t out :
+  flatten_tab g idn t = Some out ->
+  exists varying ident,
+    incl varying (cols t) /\ incl ident (cols t) /\ ~ In g ident /\
+    (forall c, In c (cols t) -> c <> g -> In c varying \/ In c ident) /\
+    (forall c, In c ident -> ~ In c varying) /\
+    NoDup (map fst out) /\
+    (forall v, In v (map fst out) <-> exists r, In r (rows t) /\ getc (cols t) g (snd r) = Some v) /\
+    forall v common flat, In (v, (common, flat)) out ->
+      let G := filter (has_id (cols t) g v) (rows t) in
+      common = map (fun c => (c, hd dzero (colv (cols t) c G))) ident /\
+      (forall k c x, In ((k, c), x) flat <->
+                     In c varying /\ exists n r, nth_error G n = Some r /\ k = Z.of_nat n + 1 /\
+                                                 x = getd (cols t) c (snd r)) /\
+      (idn = None -> forall c r, In c ident -> In r G ->
+                     getd (cols t) c (snd r) = hd dzero (colv (cols t) c G)).
+Proof.
+  unfold flatten_tab. intros H.
+  assert (H' : match colvals g t with
+               | Some vs =>
+                 let cs := cols t in
+                 let ids := uniq (sort_by (fun v => v) vs) in
+                 let grp := fun v => filter (has_id cs g v) (rows t) in
+                 let colv := fun c (rs : list lrow) => map (fun r : lrow => getd cs c (snd r)) rs in
+                 let varying := match idn with
+                                | None => filter (fun c => existsb (fun v => negb (all_same (colv c (grp v)))) ids) cs
+                                | Some l => filter (fun c => negb (memZ c l) && negb (c =? g)) cs
+                                end in
+                 let ident := filter (fun c => negb (memZ c varying) && negb (c =? g)) cs in
+                 if match idn with Some l => forallb (fun c => memZ c cs) l | None => true end
+                 then Some (map (fun v => (v, (map (fun c => (c, hd dzero (colv c (grp v)))) ident,
+                                 concat (map (fun p : Z * lrow => map (fun c => ((fst p, c), getd cs c (snd (snd p)))) varying)
+                                             (enumerate1 (grp v)))))) ids)
+                 else None
+               | None => None
+               end = Some out).
+  { destruct (rows t); [destruct idn; [exact H|discriminate]|exact H]. }
+  clear H. destruct (colvals g t) as [vs|] eqn:CV; [|discriminate].
+  cbv zeta in H'.
+  set (ids := uniq (sort_by (fun v => v) vs)) in *.
+  set (varying := match idn with
+                  | None => filter (fun c => existsb (fun v => negb (all_same (map (fun r : lrow => getd (cols t) c (snd r))
+                                      (filter (has_id (cols t) g v) (rows t))))) ids) (cols t)
+                  | Some l => filter (fun c => negb (memZ c l) && negb (c =? g)) (cols t)
+                  end) in *.
+  set (ident := filter (fun c => negb (memZ c varying) && negb (c =? g)) (cols t)) in *.
+  destruct (match idn with Some l => forallb (fun c => memZ c (cols t)) l | None => true end); [|discriminate].
+  injection H' as <-.
+  exists varying, ident.
+  assert (IV : incl varying (cols t)).
+  { intros c Hc. unfold varying in Hc. destruct idn; apply filter_In in Hc; tauto. }
+  split; [exact IV|]. split; [intros c Hc; apply filter_In in Hc; tauto|].
+  split. { intros Hg. apply filter_In in Hg. destruct Hg as [_ Hg]. rewrite Z.eqb_refl, andb_false_r in Hg. discriminate. }
+  split. { intros c Hc Hn. destruct (memZ c varying) eqn:M; [left; apply memZ_In; assumption|].
+           right. apply filter_In. split; [assumption|]. rewrite M. simpl.
+           apply negb_true_iff. apply Z.eqb_neq. assumption. }
+  split. { intros c Hc Hv. apply filter_In in Hc. destruct Hc as [_ Hc]. apply memZ_In in Hv.
+           rewrite Hv in Hc. discriminate. }
+  rewrite map_map. simpl. rewrite map_id.
+  split; [apply uniq_NoDup|].
+  pose proof (colvals_Some _ _ _ CV) as [Hg [Evs Hs]].
+  split.
+  { intros v. unfold ids. rewrite uniq_In.
+    rewrite (sort_by_In (fun v => v) vs v). rewrite Evs, in_map_iff. split.
+    - intros [r [E Hr]]. exists r. split; [assumption|]. unfold getd in E.
+      destruct (getc (cols t) g (snd r)) eqn:G; [congruence|]. exfalso. apply (Hs r Hr). assumption.
+    - intros [r [Hr G]]. exists r. split; [|assumption]. unfold getd. rewrite G. reflexivity. }
+  intros v common flat Hin. apply in_map_iff in Hin. destruct Hin as [v' [E Hv']].
+  injection E as -> <- <-. cbv zeta. split; [reflexivity|]. split.
+  - intros k c x. rewrite in_concat. split.
+    + intros [l [Hl Hx]]. apply in_map_iff in Hl. destruct Hl as [[i r] [<- Hp]].
+      apply in_map_iff in Hx. destruct Hx as [c' [E Hc']]. simpl in E. injection E as <- <- <-.
+      apply In_enumerate1 in Hp. destruct Hp as [n [N ->]]. split; [assumption|]. exists n, r. auto.
+    + intros [Hc [n [r [N [-> ->]]]]].
+      exists (map (fun c0 => ((Z.of_nat n + 1, c0), getd (cols t) c0 (snd r))) varying). split.
+      * apply in_map_iff. exists (Z.of_nat n + 1, r). split; [reflexivity|].
+        apply In_enumerate1. eauto.
+      * apply in_map_iff. exists c. auto.
+  - intros -> c r Hc Hr. apply filter_In in Hc. destruct Hc as [Hcc Hc].
+    apply andb_true_iff in Hc. destruct Hc as [Hc _]. apply negb_true_iff in Hc.
+    apply memZ_false in Hc. unfold varying in Hc.
+    rewrite filter_In in Hc.
+    destruct (existsb (fun v0 => negb (all_same (map (fun r0 : lrow => getd (cols t) c (snd r0))
+                  (filter (has_id (cols t) g v0) (rows t))))) ids) eqn:X.
+    + exfalso. apply Hc. split; [assumption|reflexivity].
+    + unfold colv. apply all_same_spec;
+        [|apply (in_map (fun r0 : lrow => getd (cols t) c (snd r0))); assumption].
+      rewrite <- not_true_iff_false, existsb_exists in X.
+      destruct (all_same (map (fun r0 : lrow => getd (cols t) c (snd r0))
+                              (filter (has_id (cols t) g v) (rows t)))) eqn:A; [reflexivity|].
+      exfalso. apply X. exists v. split; [assumption|]. rewrite A. reflexivity.
+Qed.
+
+(* ============================================ the map follows the table (map_fresh) *)
+Lemma map_opt_map {A B C} (f : B -> option C) (G : A -> B) l :
+  map_opt f (map G l) = map_opt (fun x => f (G x)) l.
+Proof. induction l as [|x r IH]; simpl; [reflexivity|]. rewrite IH. reflexivity. Qed.
+
+Lemma map_opt_ext_in {A B} (f g : A -> option B) l :
+  (forall x, In x l -> f x = g x) -> map_opt f l = map_opt g l.
+Proof.
+  induction l as [|x r IH]; simpl; intros H; [reflexivity|].
+  rewrite (H x) by auto. rewrite IH by (intros; apply H; auto). reflexivity.
+Qed.
+
+Lemma build_imap_map_rows c t t' (G : lrow -> lrow) :
+  rows t' = map G (rows t) -> (forall r, fst (G r) = fst r) ->
+  (forall r, In r (rows t) -> getc (cols t') c (snd (G r)) = getc (cols t) c (snd r)) ->
+  In c (cols t) -> In c (cols t') -> build_imap c t' = build_imap c t.
+Proof.
+  intros R F E Hc Hc'. unfold build_imap.
+  assert (CV : colvals c t' = colvals c t).
+  { unfold colvals. apply index_of_In in Hc. apply index_of_In in Hc'.
+    destruct Hc as [i ->], Hc' as [i' ->]. rewrite R, map_opt_map. apply map_opt_ext_in. exact E. }
+  rewrite CV. destruct (colvals c t) as [vs|]; [|reflexivity]. f_equal. apply map_ext. intros v.
+  assert (L : map fst (filter (has_id (cols t') c v) (rows t')) = map fst (filter (has_id (cols t) c v) (rows t))).
+  { rewrite R, filter_map, map_map.
+    rewrite (filter_ext_in' (fun x => has_id (cols t') c v (G x)) (has_id (cols t) c v)).
+    - apply map_ext. exact F.
+    - intros r Hr. unfold has_id. rewrite (E r Hr). reflexivity. }
+  rewrite L. reflexivity.
+Qed.
+
+Lemma build_imap_add_col f c c' t t' :
+  well_formed t -> add_col f c' t = Some t' -> In c (cols t) -> build_imap c t' = build_imap c t.
+Proof.
+  intros [ND WF] A Hc. apply add_col_Some in A. destruct A as [_ [NI [_ [C R]]]].
+  apply (build_imap_map_rows c t t' (fun r : lrow => (fst r, snd r ++ [fval f (cols t) r]))); auto.
+  - intros r Hr. simpl. rewrite C. apply getc_app_old; [|auto]. intros ->. contradiction.
+  - rewrite C. apply in_or_app. auto.
+Qed.
+
+Lemma build_imap_scale_other c c' s t t' :
+  well_formed t -> scale_tab c' s t = Some t' -> c <> c' -> In c (cols t) -> build_imap c t' = build_imap c t.
+Proof.
+  intros [ND WF] A Hn Hc. unfold scale_tab in A.
+  destruct (index_of c' (cols t)) as [i|] eqn:E; [|discriminate]. injection A as <-.
+  apply (build_imap_map_rows c t _ (fun r : lrow => (fst r, update_nth i (fun x => dmul x s) (snd r)))); auto.
+  intros r Hr. simpl. apply (getc_update_other _ c'); assumption.
+Qed.
+
+Lemma sort_tab_rows_length c t : length (rows (sort_tab c t)) = length (rows t).
+Proof. unfold sort_tab. cbn [rows]. rewrite relabel_length, sort_by_length. reflexivity. Qed.
+
+(* one step keeps "the map is the one computed from the current rows, labels are positions",
+   unless the step rescales the column of the individuals' identifiers itself *)
+Lemma step_map_fresh d o :
+  inv d -> map_fresh d -> (forall c s, o = OScale c s -> pcol d <> Some c) -> map_fresh (fst (step d o)).
+Proof.
+  intros [W P] MF Hs. destruct o as [f|f c|c s|c|idx].
+  - destruct (step d (ORemove f)) as [d' [|]] eqn:S.
+    + destruct (step_remove_spec d f d' (conj W P) S) as [_ [PC M]]. simpl.
+      unfold map_fresh. rewrite PC. destruct (pcol d) as [c|]; [|exact I].
+      destruct M as [T [M _]]. split; [exact M|]. rewrite T, sort_tab_labels. f_equal. symmetry. apply sort_tab_rows_length.
+    + pose proof (step_raised_unchanged d (ORemove f) (conj W P)) as Q. rewrite S in Q.
+      simpl in Q. simpl. rewrite Q by reflexivity. exact MF.
+  - simpl. destruct (add_col f c (tab d)) as [t'|] eqn:A; [|exact MF]. simpl.
+    unfold map_fresh in *. simpl. unfold panel_inv in P. destruct (pcol d) as [pc|]; [|exact I].
+    destruct MF as [M L]. destruct P as [Hc _].
+    rewrite (build_imap_add_col _ _ _ _ _ W A Hc).
+    destruct (add_column_pointwise _ _ _ _ W A) as [_ [L' _]]. split; [exact M|]. rewrite L', L.
+    apply add_col_Some in A. destruct A as [_ [_ [_ [_ R]]]]. rewrite R, map_length. reflexivity.
+  - simpl. destruct (scale_tab c s (tab d)) as [t'|] eqn:A; [|exact MF]. simpl.
+    unfold map_fresh in *. simpl. unfold panel_inv in P. destruct (pcol d) as [pc|] eqn:PC; [|exact I].
+    destruct MF as [M L]. destruct P as [Hc _].
+    assert (pc <> c) by (intros ->; apply (Hs c s eq_refl); reflexivity).
+    rewrite (build_imap_scale_other pc c s _ _ W A H Hc).
+    destruct (scale_one_column _ _ _ _ W A) as [_ [_ [L' _]]]. split; [exact M|]. rewrite L', L.
+    unfold scale_tab in A. destruct (index_of c (cols (tab d))); [|discriminate]. injection A as <-.
+    cbn [rows]. rewrite map_length. reflexivity.
+  - simpl. pose proof (panel_db_spec c d W) as S. destruct (panel_db c d) as [d' [|]]; simpl.
+    + destruct S as [_ [m [-> B]]]. unfold map_fresh. simpl. split; [symmetry; exact B|].
+      rewrite sort_tab_labels. f_equal. symmetry. apply sort_tab_rows_length.
+    + subst d'. exact MF.
+  - simpl. destruct (extract_tab idx (tab d)); [exact I|exact MF].
+Qed.
+
+Fixpoint no_id_scaling (d : db) (ops : list op) : Prop :=
+  match ops with
+  | [] => True
+  | o :: r => (forall c s, o = OScale c s -> pcol d <> Some c) /\ no_id_scaling (fst (step d o)) r
+  end.
+
+Lemma run_map_fresh ops : forall d, inv d -> map_fresh d -> no_id_scaling d ops -> map_fresh (run d ops).
+Proof.
+  unfold run. induction ops as [|o os IH]; intros d I M N; simpl; [assumption|].
+  destruct N as [N1 N2]. apply IH; [apply step_inv; assumption|apply step_map_fresh; assumption|assumption].
+Qed.
+
+Lemma new_db_map_fresh t : map_fresh (new_db t).
+Proof. exact I. Qed.
+
+(* in a fresh panel state the individuals of the map are exactly those present in the table *)
+Lemma map_fresh_individuals d c m v :
+  pcol d = Some c -> map_fresh d -> imap d = Some m ->
+  (In v (map fst m) <-> exists r, In r (rows (tab d)) /\ getc (cols (tab d)) c (snd r) = Some v).
+Proof.
+  intros P MF M. unfold map_fresh in MF. rewrite P in MF. destruct MF as [E _].
+  apply build_imap_individuals. rewrite <- E. assumption.
+Qed.
+
+Lemma sort_tab_spec c t :
+  cols (sort_tab c t) = cols t /\
+  labels (sort_tab c t) = iota (length (rows t)) /\
+  Permutation (map snd (rows (sort_tab c t))) (map snd (rows t)) /\
+  sorted_cells (map (fun r : lrow => getd (cols t) c (snd r)) (rows (sort_tab c t))) = true /\
+  forall v, map snd (filter (has_id (cols t) c v) (rows (sort_tab c t)))
+            = map snd (filter (has_id (cols t) c v) (rows t)).
+Proof.
+  exact (conj (sort_tab_cols c t) (conj (sort_tab_labels c t) (conj (sort_tab_cells_perm c t)
+        (conj (sort_tab_sorted c t) (sort_tab_keeps_order c t))))).
+Qed.
+
+(* ===================================== the order on cells; ranges of the individuals *)
+Lemma raw_sub_scale a b E :
+  E <= snd a -> E <= snd b ->
+  raw_sub a b * 2 ^ (Z.min (snd a) (snd b) - E) = fst a * 2 ^ (snd a - E) - fst b * 2 ^ (snd b - E).
+Proof.
+  intros Ha Hb. unfold raw_sub. set (e0 := Z.min (snd a) (snd b)).
+  assert (H0a : e0 <= snd a) by (unfold e0; lia). assert (H0b : e0 <= snd b) by (unfold e0; lia).
+  assert (HE : E <= e0) by (unfold e0; lia).
+  replace (snd a - E) with ((snd a - e0) + (e0 - E)) by lia.
+  replace (snd b - E) with ((snd b - e0) + (e0 - E)) by lia.
+  rewrite !Z.pow_add_r by lia. ring.
+Qed.
+
+Lemma dleb_iff a b E :
+  E <= snd a -> E <= snd b ->
+  (dleb a b = true <-> fst a * 2 ^ (snd a - E) <= fst b * 2 ^ (snd b - E)).
+Proof.
+  intros Ha Hb. unfold dleb. rewrite Z.leb_le.
+  pose proof (dsub_sgn a b) as S. pose proof (raw_sub_scale a b E Ha Hb) as R.
+  assert (K : 0 < 2 ^ (Z.min (snd a) (snd b) - E)) by (apply Z.pow_pos_nonneg; lia).
+  set (k := 2 ^ (Z.min (snd a) (snd b) - E)) in *.
+  set (va := fst a * 2 ^ (snd a - E)) in *. set (vb := fst b * 2 ^ (snd b - E)) in *.
+  split; intros H.
+  - assert (raw_sub a b <= 0) by lia. nia.
+  - assert (raw_sub a b <= 0) by nia. lia.
+Qed.
+
+Lemma dleb_trans a b c : dleb a b = true -> dleb b c = true -> dleb a c = true.
+Proof.
+  set (E := Z.min (snd a) (Z.min (snd b) (snd c))).
+  intros H1 H2.
+  apply (dleb_iff a b E) in H1; try (unfold E; lia).
+  apply (dleb_iff b c E) in H2; try (unfold E; lia).
+  apply (dleb_iff a c E); try (unfold E; lia). lia.
+Qed.
+
+Lemma norm_pos_snd_ge p e : e <= snd (norm_pos p e).
+Proof.
+  revert e. induction p as [p IH|p IH|]; intros e; simpl; try lia.
+  specialize (IH (e + 1)). lia.
+Qed.
+
+Lemma canonical_cases a : canonical a -> a = (0, 0) \/ Z.odd (fst a) = true.
+Proof.
+  destruct a as [m e]. unfold canonical, dnorm. simpl. destruct m as [|p|p].
+  - intros H. left. symmetry. exact H.
+  - destruct (norm_pos p e) as [q e'] eqn:N. intros H. injection H as -> ->. right.
+    destruct p as [p|p|]; try reflexivity.
+    exfalso. simpl in N. pose proof (norm_pos_snd_ge p (e + 1)) as G. rewrite N in G. simpl in G. lia.
+  - destruct (norm_pos p e) as [q e'] eqn:N. intros H. injection H as -> ->. right.
+    destruct p as [p|p|]; try reflexivity.
+    exfalso. simpl in N. pose proof (norm_pos_snd_ge p (e + 1)) as G. rewrite N in G. simpl in G. lia.
+Qed.
+
+Lemma odd_mul_pow2 m k : 0 < k -> Z.odd (m * 2 ^ k) = false.
+Proof.
+  intros H. replace k with (1 + (k - 1)) by lia. rewrite Z.pow_add_r by lia.
+  replace (m * (2 ^ 1 * 2 ^ (k - 1))) with (2 * (m * 2 ^ (k - 1))) by (rewrite Z.pow_1_r; ring).
+  apply Z.odd_mul. 
+Qed.
+
+Lemma dleb_antisym a b : canonical a -> canonical b -> dleb a b = true -> dleb b a = true -> a = b.
+Proof.
+  intros Ca Cb H1 H2.
+  remember (Z.min (snd a) (snd b)) as E eqn:HE.
+  apply (dleb_iff a b E) in H1; try lia.
+  apply (dleb_iff b a E) in H2; try lia.
+  assert (EQ : fst a * 2 ^ (snd a - E) = fst b * 2 ^ (snd b - E)) by lia. clear H1 H2.
+  destruct a as [ma ea], b as [mb eb]. simpl in *.
+  destruct (Z.lt_trichotomy ea eb) as [L|[L|L]].
+  - exfalso. assert (H : E = ea) by lia. rewrite H, Z.sub_diag, Z.pow_0_r, Z.mul_1_r in EQ.
+    apply canonical_cases in Ca. destruct Ca as [Ca|Ca].
+    + injection Ca as Hm He. rewrite Hm, He in *. assert (0 < 2 ^ (eb - 0)) by (apply Z.pow_pos_nonneg; lia).
+      assert (Hb : mb = 0) by nia. rewrite Hb in *. apply canonical_cases in Cb. destruct Cb as [Cb|Cb]; [|discriminate].
+      injection Cb as Hb'. lia.
+    + simpl in Ca. rewrite EQ, odd_mul_pow2 in Ca by lia. discriminate.
+  - assert (H : E = ea) by lia. rewrite <- L in EQ. rewrite H, Z.sub_diag, Z.pow_0_r, !Z.mul_1_r in EQ.
+    rewrite EQ, L. reflexivity.
+  - exfalso. assert (H : E = eb) by lia. rewrite H, Z.sub_diag, Z.pow_0_r, Z.mul_1_r in EQ.
+    apply canonical_cases in Cb. destruct Cb as [Cb|Cb].
+    + injection Cb as Hm He. rewrite Hm, He in *. assert (0 < 2 ^ (ea - 0)) by (apply Z.pow_pos_nonneg; lia).
+      assert (Ha : ma = 0) by nia. rewrite Ha in *. apply canonical_cases in Ca. destruct Ca as [Ca|Ca]; [|discriminate].
+      injection Ca as Ha'. lia.
+    + simpl in Cb. rewrite <- EQ, odd_mul_pow2 in Cb by lia. discriminate.
+Qed.
+
+Lemma sorted_cells_head_le x l : sorted_cells (x :: l) = true -> forall y, In y l -> dleb x y = true.
+Proof.
+  revert x. induction l as [|z r IH]; intros x S y Hy; [contradiction|].
+  apply sorted_cells_cons in S. destruct S as [S1 S2]. destruct Hy as [<-|Hy]; [exact S1|].
+  apply (dleb_trans x z y); [exact S1|]. apply IH; assumption.
+Qed.
+
+Lemma sorted_cells_nth l d i j :
+  sorted_cells l = true -> (i <= j)%nat -> (j < length l)%nat -> dleb (nth i l d) (nth j l d) = true.
+Proof.
+  revert i j. induction l as [|x r IH]; intros i j S Hij Hj; simpl in Hj; [lia|].
+  destruct i as [|i], j as [|j]; simpl; try lia.
+  - apply dleb_refl.
+  - apply (sorted_cells_head_le x r S). apply nth_In. lia.
+  - apply sorted_cells_cons in S. apply IH; [tauto|lia|lia].
+Qed.
+
+Lemma Zmin_list_spec l d : In (Zmin_list d l) (d :: l) /\ forall x, In x (d :: l) -> Zmin_list d l <= x.
+Proof.
+  unfold Zmin_list. revert d. induction l as [|y r IH]; intros d; simpl.
+  - split; [auto|]. intros x [<-|[]]. lia.
+  - destruct (IH (Z.min d y)) as [I1 I2]. split.
+    + destruct I1 as [I1|I1]; [|auto]. rewrite <- I1. destruct (Z.min_spec d y) as [[_ ->]|[_ ->]]; auto.
+    + intros x Hx. assert (M : fold_left Z.min r (Z.min d y) <= Z.min d y) by (apply I2; simpl; auto).
+      destruct Hx as [<-|[<-|Hx]]; try lia. apply I2. simpl. auto.
+Qed.
+
+Lemma Zmax_list_spec l d : In (Zmax_list d l) (d :: l) /\ forall x, In x (d :: l) -> x <= Zmax_list d l.
+Proof.
+  unfold Zmax_list. revert d. induction l as [|y r IH]; intros d; simpl.
+  - split; [auto|]. intros x [<-|[]]. lia.
+  - destruct (IH (Z.max d y)) as [I1 I2]. split.
+    + destruct I1 as [I1|I1]; [|auto]. rewrite <- I1. destruct (Z.max_spec d y) as [[_ ->]|[_ ->]]; auto.
+    + intros x Hx. assert (M : Z.max d y <= fold_left Z.max r (Z.max d y)) by (apply I2; simpl; auto).
+      destruct Hx as [<-|[<-|Hx]]; try lia. apply I2. simpl. auto.
+Qed.
+
+Lemma min_label_spec l : l <> [] -> In (min_label l) l /\ forall x, In x l -> min_label l <= x.
+Proof. destruct l as [|d r]; [congruence|]. intros _. apply Zmin_list_spec. Qed.
+Lemma max_label_spec l : l <> [] -> In (max_label l) l /\ forall x, In x l -> x <= max_label l.
+Proof. destruct l as [|d r]; [congruence|]. intros _. apply Zmax_list_spec. Qed.
+
+(* rows whose labels are their positions *)
+Lemma label_nth t i :
+  labels t = iota (length (rows t)) -> (i < length (rows t))%nat -> fst (nth i (rows t) dummy_row) = Z.of_nat i.
+Proof.
+  intros L Hi. transitivity (nth i (labels t) 0).
+  - unfold labels. change 0 with (fst dummy_row). symmetry. apply map_nth.
+  - rewrite L. unfold iota. change 0 with (Z.of_nat 0). rewrite map_nth, seq_nth by assumption. reflexivity.
+Qed.
+
+Lemma positional_row t p r :
+  labels t = iota (length (rows t)) -> In r (rows t) -> fst r = p ->
+  0 <= p < nrows t /\ r = iloc t p.
+Proof.
+  intros L Hr Hp. apply In_nth with (d := dummy_row) in Hr. destruct Hr as [i [Hi E]].
+  assert (F : fst r = Z.of_nat i) by (rewrite <- E; apply label_nth; assumption).
+  unfold nrows, iloc. split; [lia|]. rewrite <- Hp, F, Nat2Z.id. symmetry. exact E.
+Qed.
+
+Lemma iloc_label t p : labels t = iota (length (rows t)) -> 0 <= p < nrows t -> fst (iloc t p) = p.
+Proof.
+  intros L Hp. unfold iloc, nrows in *. rewrite label_nth by (assumption || lia). lia.
+Qed.
+
+Definition canonical_col (c : Z) (t : table) : Prop :=
+  forall r, In r (rows t) -> canonical (getd (cols t) c (snd r)).
+
+(* T13e/T13i: in a table sorted by individual whose labels are positions -- what build_panel_map
+   produces -- the range recorded for an individual contains exactly that individual's rows *)
+Lemma build_imap_ranges c t m v lo hi :
+  well_formed t -> In c (cols t) -> canonical_col c t ->
+  labels t = iota (length (rows t)) ->
+  sorted_cells (map (fun r : lrow => getd (cols t) c (snd r)) (rows t)) = true ->
+  build_imap c t = Some m -> In (v, (lo, hi)) m ->
+  0 <= lo <= hi /\ hi < nrows t /\
+  forall p, 0 <= p < nrows t -> (lo <= p <= hi <-> getc (cols t) c (snd (iloc t p)) = Some v).
+Proof.
+  intros W Hc CC L S B Hin. unfold build_imap in B.
+  destruct (colvals c t) as [vs|] eqn:CV; [|discriminate]. injection B as <-.
+  apply in_map_iff in Hin. destruct Hin as [v' [E Hv]]. injection E as -> <- <-.
+  apply colvals_Some in CV. destruct CV as [_ [Evs Hs]].
+  set (ls := map fst (filter (has_id (cols t) c v) (rows t))).
+  assert (HID : forall r, In r (rows t) -> (has_id (cols t) c v r = true <-> getc (cols t) c (snd r) = Some v)).
+  { intros r Hr. unfold has_id. destruct (getc (cols t) c (snd r)) as [x|] eqn:G.
+    - rewrite ceqb_eq. split; congruence.
+    - split; [discriminate|]. intros; exfalso; apply (Hs r Hr); assumption. }
+  assert (LS : forall p, In p ls <-> 0 <= p < nrows t /\ getc (cols t) c (snd (iloc t p)) = Some v).
+  { intros p. unfold ls. rewrite in_map_iff. split.
+    - intros [r [Hp Hr]]. apply filter_In in Hr. destruct Hr as [Hr Hid].
+      destruct (positional_row t p r L Hr Hp) as [Rg ->]. split; [assumption|]. apply HID; [apply iloc_In|]; assumption.
+    - intros [Rg G]. exists (iloc t p). split; [apply iloc_label; assumption|].
+      apply filter_In. split; [apply iloc_In; assumption|]. apply HID; [apply iloc_In|]; assumption. }
+  assert (NE : ls <> []).
+  { apply (proj1 (uniq_In _ _)) in Hv. rewrite Evs in Hv. apply in_map_iff in Hv. destruct Hv as [r [Er Hr]].
+    assert (In (fst r) ls).
+    { unfold ls. apply in_map. apply filter_In. split; [assumption|]. apply HID; [assumption|].
+      unfold getd in Er. destruct (getc (cols t) c (snd r)) eqn:G; [congruence|]. exfalso. apply (Hs r Hr). assumption. }
+    intros Z0. rewrite Z0 in H. contradiction. }
+  destruct (min_label_spec ls NE) as [Min1 Min2]. destruct (max_label_spec ls NE) as [Max1 Max2].
+  apply LS in Min1. apply LS in Max1. destruct Min1 as [Rlo Glo], Max1 as [Rhi Ghi].
+  assert (LH : min_label ls <= max_label ls) by (apply Min2; apply LS; split; assumption).
+  split; [lia|]. split; [lia|].
+  intros p Rp. split.
+  - intros [P1 P2].
+    (* sandwiched between two rows of individual v in a sorted column *)
+    set (vals := map (fun r : lrow => getd (cols t) c (snd r)) (rows t)) in *.
+    assert (NV : forall q, 0 <= q < nrows t -> nth (Z.to_nat q) vals dzero = getd (cols t) c (snd (iloc t q))).
+    { intros q Rq. unfold vals, iloc.
+      rewrite (nth_indep _ dzero ((fun r : lrow => getd (cols t) c (snd r)) dummy_row))
+        by (rewrite map_length; unfold nrows in Rq; lia).
+      exact (map_nth (fun r : lrow => getd (cols t) c (snd r)) (rows t) dummy_row (Z.to_nat q)). }
+    assert (LV : length vals = length (rows t)) by (unfold vals; apply map_length).
+    unfold nrows in *.
+    assert (D1 : dleb (nth (Z.to_nat (min_label ls)) vals dzero) (nth (Z.to_nat p) vals dzero) = true)
+      by (apply sorted_cells_nth; [assumption|lia|lia]).
+    assert (D2 : dleb (nth (Z.to_nat p) vals dzero) (nth (Z.to_nat (max_label ls)) vals dzero) = true)
+      by (apply sorted_cells_nth; [assumption|lia|lia]).
+    rewrite !NV in D1, D2 by (unfold nrows; lia).
+    unfold getd in D1 at 1. rewrite Glo in D1. unfold getd in D2 at 2. rewrite Ghi in D2.
+    assert (Cp : canonical (getd (cols t) c (snd (iloc t p)))) by (apply CC; apply iloc_In; unfold nrows; lia).
+    assert (Cv : canonical v).
+    { specialize (CC (iloc t (min_label ls)) ltac:(apply iloc_In; unfold nrows; lia)).
+      unfold getd in CC. rewrite Glo in CC. exact CC. }
+    assert (EQ : getd (cols t) c (snd (iloc t p)) = v) by (apply dleb_antisym; assumption).
+    unfold getd in EQ. destruct (getc (cols t) c (snd (iloc t p))) eqn:G; [congruence|].
+    exfalso. apply (Hs (iloc t p)); [apply iloc_In; unfold nrows; lia|assumption].
+  - intros G. assert (In p ls) by (apply LS; split; assumption). split; [apply Min2|apply Max2]; assumption.
+Qed.
+
+Lemma sort_tab_canonical_col c t : canonical_col c t -> canonical_col c (sort_tab c t).
+Proof.
+  intros CC r Hr. rewrite sort_tab_cols.
+  assert (H : In (snd r) (map snd (rows (sort_tab c t)))) by (apply in_map; assumption).
+  apply (Permutation_in _ (sort_tab_cells_perm c t)) in H. apply in_map_iff in H.
+  destruct H as [r0 [E Hr0]]. rewrite <- E. apply CC. assumption.
+Qed.
+
+(* the map built by panel() / rebuilt by remove(): every individual's range is exactly the block of
+   its rows in the sorted, renumbered table *)
+Lemma panel_ranges c t m v lo hi :
+  well_formed t -> In c (cols t) -> canonical_col c t ->
+  build_imap c (sort_tab c t) = Some m -> In (v, (lo, hi)) m ->
+  let t' := sort_tab c t in
+  0 <= lo <= hi /\ hi < nrows t' /\
+  forall p, 0 <= p < nrows t' -> (lo <= p <= hi <-> getc (cols t') c (snd (iloc t' p)) = Some v).
+Proof.
+  intros W Hc CC B Hin. cbv zeta.
+  apply (build_imap_ranges c (sort_tab c t) m v lo hi); try assumption.
+  - apply sort_tab_wf. assumption.
+  - apply sort_tab_canonical_col. assumption.
+  - rewrite sort_tab_labels. f_equal. symmetry. apply sort_tab_rows_length.
+  - rewrite sort_tab_cols. apply sort_tab_sorted.
+Qed.
+
+(* ============================ the dyadic arithmetic of the model is exact arithmetic *)
+(* value of a cell in units of 2^E (an integer as soon as E <= exponent) *)
+Definition dval (a : cell) (E : Z) : Z := fst a * 2 ^ (snd a - E).
+
+Lemma norm_pos_value p e :
+  e <= snd (norm_pos p e) /\ Zpos p = Zpos (fst (norm_pos p e)) * 2 ^ (snd (norm_pos p e) - e).
+Proof.
+  revert e. induction p as [p IH|p IH|]; intros e; simpl;
+    try (split; [lia|]; rewrite Z.sub_diag, Z.pow_0_r; lia).
+  destruct (IH (e + 1)) as [I1 I2]. split; [lia|].
+  replace (snd (norm_pos p (e + 1)) - e) with (1 + (snd (norm_pos p (e + 1)) - (e + 1))) by lia.
+  rewrite Z.pow_add_r by lia. rewrite Z.pow_1_r.
+  change (Z.pos p~0) with (2 * Z.pos p). rewrite I2 at 1. ring.
+Qed.
+
+Lemma dnorm_value c E : E <= snd c -> dval (dnorm c) E = dval c E.
+Proof.
+  destruct c as [m e]. unfold dval, dnorm. simpl. intros H. destruct m as [|p|p].
+  - simpl. reflexivity.
+  - destruct (norm_pos_value p e) as [I1 I2]. destruct (norm_pos p e) as [q e']. simpl in *.
+    rewrite I2. replace (e' - E) with ((e' - e) + (e - E)) by lia. rewrite Z.pow_add_r by lia. ring.
+  - destruct (norm_pos_value p e) as [I1 I2]. destruct (norm_pos p e) as [q e']. simpl in *.
+    change (Z.neg p) with (- Z.pos p). change (Z.neg q) with (- Z.pos q).
+    rewrite I2. replace (e' - E) with ((e' - e) + (e - E)) by lia. rewrite Z.pow_add_r by lia. ring.
+Qed.
+
+Lemma dadd_value a b E : E <= snd a -> E <= snd b -> dval (dadd a b) E = dval a E + dval b E.
+Proof.
+  intros Ha Hb. unfold dadd. rewrite dnorm_value by (simpl; lia). unfold dval. simpl.
+  set (e0 := Z.min (snd a) (snd b)).
+  replace (snd a - E) with ((snd a - e0) + (e0 - E)) by lia.
+  replace (snd b - E) with ((snd b - e0) + (e0 - E)) by lia.
+  rewrite !Z.pow_add_r by (unfold e0; lia). ring.
+Qed.
+
+Lemma dsub_value a b E : E <= snd a -> E <= snd b -> dval (dsub a b) E = dval a E - dval b E.
+Proof.
+  intros Ha Hb. unfold dsub. rewrite dadd_value by (simpl; assumption). unfold dval, dopp. simpl. ring.
+Qed.
+
+Lemma dmul_value a b Ea Eb :
+  Ea <= snd a -> Eb <= snd b -> dval (dmul a b) (Ea + Eb) = dval a Ea * dval b Eb.
+Proof.
+  intros Ha Hb. unfold dmul. rewrite dnorm_value by (simpl; lia). unfold dval. simpl.
+  replace (snd a + snd b - (Ea + Eb)) with ((snd a - Ea) + (snd b - Eb)) by lia.
+  rewrite Z.pow_add_r by lia. ring.
+Qed.
+
+Lemma dleb_value a b E : E <= snd a -> E <= snd b -> (dleb a b = true <-> dval a E <= dval b E).
+Proof. exact (dleb_iff a b E). Qed.
+
+Lemma dltb_value a b E : E <= snd a -> E <= snd b -> (dltb a b = true <-> dval a E < dval b E).
+Proof.
+  intros Ha Hb. unfold dltb. rewrite Z.ltb_lt.
+  pose proof (dsub_sgn a b) as S. pose proof (raw_sub_scale a b E Ha Hb) as R.
+  assert (K : 0 < 2 ^ (Z.min (snd a) (snd b) - E)) by (apply Z.pow_pos_nonneg; lia).
+  unfold dval. set (k := 2 ^ (Z.min (snd a) (snd b) - E)) in *.
+  set (va := fst a * 2 ^ (snd a - E)) in *. set (vb := fst b * 2 ^ (snd b - E)) in *.
+  split; intros H.
+  - assert (raw_sub a b < 0) by lia. nia.
+  - assert (raw_sub a b < 0) by nia. lia.
+Qed.
+
+Lemma ceqb_value a b E :
+  canonical a -> canonical b -> E <= snd a -> E <= snd b -> (ceqb a b = true <-> dval a E = dval b E).
+Proof.
+  intros Ca Cb Ha Hb. rewrite ceqb_eq. split; [intros ->; reflexivity|]. intros H.
+  apply dleb_antisym; try assumption; apply (dleb_iff _ _ E); try assumption; unfold dval in H; lia.
+Qed.
+
+Lemma dnorm_canonical c : canonical (dnorm c).
+Proof.
+  unfold canonical. destruct c as [m e]. unfold dnorm at 2. simpl. destruct m as [|p|p]; [reflexivity| |].
+  - destruct (norm_pos p e) as [q e'] eqn:N. unfold dnorm. simpl.
+    assert (Q : norm_pos q e' = (q, e')).
+    { revert e N. induction p as [p IH|p IH|]; intros e N; simpl in N; try (injection N as <- <-; reflexivity).
+      apply (IH (e + 1)). exact N. }
+    rewrite Q. reflexivity.
+  - destruct (norm_pos p e) as [q e'] eqn:N. unfold dnorm. simpl.
+    assert (Q : norm_pos q e' = (q, e')).
+    { revert e N. induction p as [p IH|p IH|]; intros e N; simpl in N; try (injection N as <- <-; reflexivity).
+      apply (IH (e + 1)). exact N. }
+    rewrite Q. reflexivity.
+Qed.
+
+Lemma arithmetic_exact :
+  (forall a b E, E <= snd a -> E <= snd b -> dval (dadd a b) E = dval a E + dval b E) /\
+  (forall a b E, E <= snd a -> E <= snd b -> dval (dsub a b) E = dval a E - dval b E) /\
+  (forall a b Ea Eb, Ea <= snd a -> Eb <= snd b -> dval (dmul a b) (Ea + Eb) = dval a Ea * dval b Eb) /\
+  (forall a b E, E <= snd a -> E <= snd b -> (dleb a b = true <-> dval a E <= dval b E)) /\
+  (forall a b E, E <= snd a -> E <= snd b -> (dltb a b = true <-> dval a E < dval b E)) /\
+  (forall a b E, canonical a -> canonical b -> E <= snd a -> E <= snd b -> (ceqb a b = true <-> dval a E = dval b E)) /\
+  (forall a b, canonical (dadd a b) /\ canonical (dmul a b)).
+Proof.
+  repeat split; intros.
+  - apply dadd_value; assumption.
+  - apply dsub_value; assumption.
+  - apply dmul_value; assumption.
+  - apply dleb_value; assumption.
+  - apply dleb_value; assumption.
+  - apply dltb_value; assumption.
+  - apply dltb_value; assumption.
+  - apply ceqb_value; assumption.
+  - apply ceqb_value; assumption.
+  - apply dnorm_canonical.
+  - apply dnorm_canonical.
 Qed.
